@@ -9,11 +9,12 @@ SignificantTimes object).  Every transition executes the real operation on a fre
 """
 from __future__ import annotations
 
+import os
 import io
 from fractions import Fraction as F
 
 from mc import env  # noqa
-from mc.kernel import StateFamily
+from mc.kernel import StateFamily, HarnessError
 from mc import stylegen
 from mc.spec import build, fp_doc, fp_isd, fp_isd_render, node, text, doc_spec, E, L
 from mc.ref_isd import probe_times
@@ -40,7 +41,7 @@ BOUNDS = {
 }
 ASSUMPTIONS = [
   "two histories are merged when document fingerprint, SignificantTimes cache projection and the capped multiset of operation "
-  "kinds agree: hidden module/class state can only depend on which operations ran (and how often up to 2), which the multiset keeps",
+  "kinds (writer operations: kind and configuration) agree: hidden module/class state can only depend on which operations ran (and how often up to 2), which the multiset keeps",
   "render equivalence: regions without text/br leaf and without visible own background are dropped on both sides (as the statement allows)",
 ]
 
@@ -103,13 +104,20 @@ def seeds():
   # animation on content
   S.append(doc_spec(_body(node("p", [node("span", [text("a")], id="s1", an=[["Color", F(1), F(2), RED]])], id="p1", b=F(1), e=F(4), r="r1")),
                     [{"id": "r1", "st": {"Origin": ["org", L(10, "%"), L(80, "%")], "Extent": ["ext", L(10, "%"), L(80, "%")]}}]))
+  # two regions (the significant times are then computed on per-region clones of the document), an element that is never
+  # active because its end is 0, open-ended content
+  S.append(doc_spec(_body(_p("p1", "never", None, F(0), "r1"), _p("p2", "a", F(1), F(3), "r1"), _p("p3", "b", F(2), None, "r2"),
+                          node("p", [node("span", [text("c")], id="p4s", e=F(0))], id="p4", r="r2")), [{"id": "r1"}, {"id": "r2"}]))
+  # paragraphs with their own text alignment (what the WebVTT writer's text_align option writes out)
+  S.append(doc_spec(_body(_p("p1", "a", F(1), F(2), "r1", st={"TextAlign": E("TextAlignType", "end")}),
+                          _p("p2", "b", F(2), F(3), "r1", st={"TextAlign": E("TextAlignType", "center")})), [{"id": "r1"}]))
   return S
 
 
 SEEDS = seeds()
 
 KINDS = ["sig", "fm", "fmc", "seq", "srt", "vtt", "imsc"]
-OPS = [["sig"], ["fm", 0], ["fm", 1], ["fm", 2], ["fmc", 0], ["fmc", 1], ["fmc", 2], ["seq"], ["srt"], ["vtt", 0], ["vtt", 1], ["imsc", 0], ["imsc", 1]]
+OPS = [["sig"], ["fm", 0], ["fm", 1], ["fm", 2], ["fmc", 0], ["fmc", 1], ["fmc", 2], ["seq"], ["srt"], ["vtt", 0], ["vtt", 1], ["vtt", 2], ["imsc", 0], ["imsc", 1]]
 
 
 def _times(si):
@@ -133,7 +141,8 @@ def _apply(op, doc, st, si):
   if k == "srt":
     return ("srt", srt_writer.from_model(doc, SRTWriterConfiguration()))
   if k == "vtt":
-    cfg = VTTWriterConfiguration() if op[1] == 0 else VTTWriterConfiguration(line_position=True, text_align=True, cue_id=False)
+    cfg = [VTTWriterConfiguration(), VTTWriterConfiguration(line_position=True, text_align=True, cue_id=False),
+           VTTWriterConfiguration(text_align=True)][op[1]]      # 0 and 2 differ in text_align only
     return ("vtt", vtt_writer.from_model(doc, cfg))
   if k == "imsc":
     cfg = None if op[1] == 0 else IMSCWriterConfiguration(time_format=TimeExpressionSyntaxEnum.frames, fps=F(25))
@@ -173,17 +182,55 @@ def _hidden_state():
 _PRISTINE = {}
 
 
+def _fork_call(fn, *args):
+  """runs fn(*args) in a forked child of this (pristine) process and returns its picklable result: every history, every
+  pristine reference and every step is executed in a process in which nothing else has run, and that a fresh-process replay
+  reproduces exactly"""
+  import pickle
+  r, w = os.pipe()
+  pid = os.fork()
+  if pid == 0:
+    code = 0
+    try:
+      os.close(r)
+      try:
+        out = ("ok", fn(*args))
+      except BaseException:  # pylint: disable=broad-except
+        import traceback
+        out = ("err", traceback.format_exc()[-3000:])
+      with os.fdopen(w, "wb") as f:
+        pickle.dump(out, f)
+    except BaseException:  # pylint: disable=broad-except
+      code = 1
+    finally:
+      os._exit(code)  # pylint: disable=protected-access
+  os.close(w)
+  with os.fdopen(r, "rb") as f:
+    data = f.read()
+  os.waitpid(pid, 0)
+  if not data:
+    raise HarnessError("forked evaluation produced no result")
+  kind, val = pickle.loads(data)
+  if kind == "err":
+    raise HarnessError("forked evaluation failed:\n" + val)
+  return val
+
+
+def _pristine_compute(si, op):
+  doc = build(SEEDS[si])
+  st = {}
+  if op[0] == "fmc":
+    st["sig"] = ISD.significant_times(doc)
+    # the uncached snapshot is the reference for the cached one (render equivalence)
+    return ("isd-render", fp_isd_render(ISD.from_model(doc, _times(si)[op[1]])))
+  return _safe(op, doc, st, si)
+
+
 def _pristine(si, op):
+  """the result of `op` as the very first thing that happens in a process"""
   key = (si, tuple(op))
   if key not in _PRISTINE:
-    doc = build(SEEDS[si])
-    st = {}
-    if op[0] == "fmc":
-      st["sig"] = ISD.significant_times(doc)
-      # the uncached snapshot is the reference for the cached one (render equivalence)
-      _PRISTINE[key] = ("isd-render", fp_isd_render(ISD.from_model(doc, _times(si)[op[1]])))
-    else:
-      _PRISTINE[key] = _safe(op, doc, st, si)
+    _PRISTINE[key] = _fork_call(_pristine_compute, si, op)
   return _PRISTINE[key]
 
 
@@ -218,22 +265,22 @@ def _replay(history):
 def _counts(history):
   c = {}
   for op in history[1:]:
-    c[op[0]] = min(2, c.get(op[0], 0) + 1)
+    k = op[0] if op[0] in ("sig", "fm", "fmc", "seq") else f"{op[0]}{op[1] if len(op) > 1 else ''}"      # writers: per configuration
+    c[k] = min(2, c.get(k, 0) + 1)
   return tuple(sorted(c.items()))
 
 
-def expand(history, acc):
-  # the pristine results are computed BEFORE anything else happens in this process, so that a replay in a fresh
-  # interpreter compares against a true first call (hidden module/class state would otherwise already be primed)
-  for op in OPS:
-    _pristine(history[0][1], op)
+def _state_check(history):
+  """in a forked child: replays the history, returns (violations, probes, enabled ops)"""
   si, doc, st = _replay(history)
   spec = SEEDS[si]
   pristine_fp = fp_doc(build(spec))
   case = {"history": history, "seed_spec": spec}
+  viol = []
+  probes = 0
   # invariant: source unchanged in the reached state
   if fp_doc(doc) != pristine_fp:
-    acc.violation("C14.source-unchanged", f"after={history[-1][0]}", case, note="document fingerprint changed after the history")
+    viol.append(("C14.source-unchanged", f"after={history[-1][0]}", case, None, None, "document fingerprint changed after the history"))
   # invariant: cached snapshots render like uncached ones at EVERY probe time
   if st.get("sig") is not None:
     fresh = build(spec)
@@ -245,15 +292,36 @@ def expand(history, acc):
         if "ruby" in str(e).lower():
           continue
         raise
-      acc.count("cached-vs-uncached-probes")
+      probes += 1
       if a != b:
-        acc.violation("C14.cached-equals-uncached", _cache_disc(a, b), dict(case, t=t), observed=_summ(a), expected=_summ(b),
-                      note=f"ISD.from_model(doc, {t}, sig) does not render like ISD.from_model(doc, {t})")
+        viol.append(("C14.cached-equals-uncached", _cache_disc(a, b), dict(case, t=t), _summ(a), _summ(b),
+                     f"ISD.from_model(doc, {t}, sig) does not render like ISD.from_model(doc, {t})"))
         break
+  return viol, probes, _enabled(st)
+
+
+def _step(history, op):
+  """in a forked child: replays the history, applies `op`, returns what the parent needs"""
+  si2, doc2, st2 = _replay(history)
+  res = _safe(op, doc2, st2, si2)
+  return res, fp_doc(doc2), _sig_canon(st2.get("sig")), _hidden_state()
+
+
+def expand(history, acc):
+  # this process never executes an operation itself: the pristine references, the state check and every step run in forked
+  # children, so that each is the only thing that happened in its process (hidden module/class state cannot leak between them,
+  # and a replay in a fresh interpreter sees exactly the same sequence)
+  si = history[0][1]
+  spec = SEEDS[si]
+  pristine_fp = _pristine_fp(si)
+  viol, probes, enabled = _fork_call(_state_check, history)
+  for clause, disc, case, obs, exp, note in viol:
+    acc.violation(clause, disc, case, observed=obs, expected=exp, note=note)
+  if probes:
+    acc.count("cached-vs-uncached-probes", probes)
   succ = []
-  for op in _enabled(st):
-    si2, doc2, st2 = _replay(history)
-    res = _safe(op, doc2, st2, si2)
+  for op in enabled:
+    res, fp2, sig2, hidden = _fork_call(_step, history, op)
     want = _pristine(si, op)
     nt = _content(res)
     acc.case(f"{op[0]}:{'content' if nt else 'empty'}" if res[0] != "raises" else f"{op[0]}:raises", nontrivial=nt,
@@ -269,11 +337,20 @@ def expand(history, acc):
       else:
         acc.violation("C14.history-independent", f"op={op[0]}",
                       {"history": history, "op": op, "seed_spec": spec}, observed=str(res)[:600], expected=str(want)[:600],
-                      note="result differs from the same operation on a freshly built document")
-    if fp_doc(doc2) != pristine_fp:
+                      note="result differs from the same operation as the first thing that happens in a process")
+    if fp2 != pristine_fp:
       acc.violation("C14.source-unchanged", f"op={op[0]}", {"history": history, "op": op, "seed_spec": spec}, note="operation changed the source document")
-    succ.append((op, (si, fp_doc(doc2), _sig_canon(st2.get("sig")), _counts(h2), _hidden_state())))
+    succ.append((op, (si, fp2, sig2, _counts(h2), hidden)))
   return succ
+
+
+_PFP = {}
+
+
+def _pristine_fp(si):
+  if si not in _PFP:
+    _PFP[si] = fp_doc(build(SEEDS[si]))
+  return _PFP[si]
 
 
 def _summ(fp):
